@@ -60,6 +60,7 @@ EXP = {
     "epoch": (None, "Thu, 01 Jan 1970 00:00:00 GMT"),   # the usual deletion idiom
     "mabad+past": ("abc", _date(T0 - 86400)),            # the malformed Max-Age is ignored, Expires applies
     "mabad+fut": ("1x", _date(T0 + 10)),
+    "mahuge": ("9" * 400, None),                         # more seconds than a float holds: a cookie that does not expire
 }
 DOM = {"-": None, "e": "example.com", ".e": ".example.com", "s": "sub.example.com", "o": "other.com", "com": "com",
        "e.": "example.com.", "E": "EXAMPLE.COM", "n": "notexample.com"}
@@ -73,19 +74,21 @@ DIMS = [
     ("path", ["-", "/a", "/a/", "a", "/", "/a//", "/a/b/"]),
     ("rpath", ["/", "/a/b", "/a"]),
     ("secure", [0, 1]),
-    ("exp", ["-", "ma10", "ma0", "past", "fut", "ma-1", "mabad", "epoch", "mabad+past", "mabad+fut"]),
+    ("exp", ["-", "ma10", "ma0", "past", "fut", "ma-1", "mabad", "epoch", "mabad+past", "mabad+fut", "mahuge"]),
     ("name", ["n", "m"]),
-    ("val", ["u", "same"]),
+    ("val", ["u", "same", "u+flag", "u+kv"]),
 ]
 QUICK_DIMS = [
     ("host", ["E", "S", "O", "N", "I"]),
-    ("dom", ["-", "e", ".e", "s", "com", "e."]),
+    ("dom", ["-", "e", ".e", "s", "com", "e.", "E"]),
     ("path", ["-", "/a", "/a/", "/a//"]),
     ("rpath", ["/", "/a/b"]),
     ("secure", [0, 1]),
-    ("exp", ["-", "ma10", "ma0", "past", "epoch", "mabad+past"]),
+    ("exp", ["-", "ma10", "ma0", "past", "epoch", "mabad+past", "mahuge"]),
     ("name", ["n", "m"]),
-    ("val", ["u", "same"]),      # "same": a constant value, so that a re-issued cookie can equal the stored one
+    # "same": a constant value, so that a re-issued cookie can equal the stored one; "+flag"/"+kv": an attribute this
+    # implementation does not know (valueless / with a value) right behind the pair - RFC 6265 5.2: ignored
+    ("val", ["u", "same", "u+flag", "u+kv"]),
 ]
 
 
@@ -116,6 +119,10 @@ def value_of(op):
 def header_of(op):
     _s, host, dom, path, rpath, secure, exp, name, _val = op
     h = f"{name}={value_of(op)}"
+    if str(_val).endswith("+flag"):
+        h += "; SameParty"
+    elif str(_val).endswith("+kv"):
+        h += "; Priority=High"
     if DOM[dom] is not None:
         h += f"; Domain={DOM[dom]}"
     if PATH[path] is not None:
@@ -144,12 +151,16 @@ class Sim:
         self.problems = []
         self.ops = config["ops"]
         self.ever = set()      # (name, domain, path) keys the reference ever stored
+        self.kv_seen = False   # a Set-Cookie with an unknown attribute that has a value went in
         _FakeTime.now = self.now
 
     def enabled(self):
         return self.ops
 
     def P(self, sig, msg):
+        if self.kv_seen:
+            # one cause, one signature: every difference in a history that contains such a header
+            sig = "valued-unknown-attribute-becomes-a-cookie"
         self.problems.append(("C16:" + sig, msg))
 
     def apply_quiet(self, op):
@@ -162,6 +173,8 @@ class Sim:
             if kind == "set":
                 _s, host, dom, path, rpath, secure, exp, name, _val = op
                 url = URL(f"http://{HOSTS[host]}{RPATH[rpath]}")
+                if str(_val).endswith("+kv"):
+                    self.kv_seen = True
                 self.jar.update_cookies_from_headers([header_of(op)], url)
                 ma, ex = EXP[exp]
                 before = set(self.ref.store)
